@@ -13,7 +13,9 @@
 (* The model is driven by the logged ARGUMENTS only.  What is asserted on  *)
 (* the logged RESULTS depends on `Check` -- one acceptor per property      *)
 (* (DESIGN.md 3.5), so that an alarm is attributable:                      *)
-(*   C02  refinement: returned ids and the whole state equal the model's   *)
+(*   C02  every returned id resolves to the image of the identity's own    *)
+(*        type_info(), references resolving to the referenced definitions  *)
+(*   REFINE  (diagnostic) ids and whole state equal the model's            *)
 (*   C01  every observed registry is dense and closed; resolve is by label *)
 (*   C05  hits are no-ops, ids partition spellings exactly by identity,    *)
 (*        one entry per reachable identity, type_info() evaluated only as  *)
@@ -60,6 +62,7 @@ TChild == /\ Child
           /\ UNCHANGED <<prev, seen>>
 TComplete == Complete /\ UNCHANGED <<l, prev, seen>>
 
+Min2(a, b) == IF a < b THEN a ELSE b
 \* <<spelling, returned id>> pairs of a call event
 Pairs(e) == CASE e.ev = "Register" -> <<<<e.sp, e.ret>>>>
               [] e.ev = "RegisterMany" -> [k \in 1..Len(e.sps) |-> <<e.sps[k], e.ret[k]>>]
@@ -67,8 +70,20 @@ Pairs(e) == CASE e.ev = "Register" -> <<<<e.sp, e.ret>>>>
 NewSeen(e) == seen \cup {<<Ident(Pairs(e)[k][1]), Pairs(e)[k][2]>> : k \in 1..Len(Pairs(e))}
 Partition(S) == \A p, q \in S : (p[1] = q[1]) <=> (p[2] = q[2])
 
+\* C02, relationally: from the <<identity, returned id>> pairs, each id resolves to an entry identical to
+\* that identity's type_info() up to references, and references resolve to the referenced definitions
+Blank(b) == MapRefs(b, LAMBDA x : 0)
+RECURSIVE GrowImg(_, _)
+GrowImg(M, snap) ==
+  LET nxt == M \cup UNION { LET a == Refs(snap[p[2]+1]) b == Refs(info[p[1]]) IN
+                               {<<Ident(b[k]), a[k]>> : k \in 1..Min2(Len(a), Len(b))} : p \in {x \in M : x[2] < Len(snap)} }
+  IN IF nxt = M THEN M ELSE GrowImg(nxt, snap)
+ImageOK(snap, roots) == \A p \in GrowImg(roots, snap) :
+   /\ p[2] < Len(snap)
+   /\ Blank(Body(snap[p[2]+1])) = Blank(info[p[1]])
 AcceptCall(e) ==
-  CASE Check = "C02" -> /\ e.ret = ret[2] /\ e.types = Snapshot
+  CASE Check = "C02" -> ImageOK(e.types, NewSeen(e))
+    [] Check = "REFINE" -> /\ e.ret = ret[2] /\ e.types = Snapshot
     [] Check = "C01" -> WellFormed(e.types) /\ ResolveOK(e.types)
     [] Check = "C05" -> /\ Len(e.types) = Len(prev) => e.types = prev       \* nothing new: nothing changed
                         /\ Partition(NewSeen(e))                           \* aliases share, distinct never merge
@@ -84,7 +99,8 @@ ResolveProbesOK(e) == \A k \in 1..Len(e.res) :
    LET i == e.res[k][1] got == e.res[k][2] IN
      IF i < Len(e.types) THEN got = <<Body(e.types[i+1])>> /\ e.types[i+1].id = i ELSE got = <<>>
 AcceptFinal(e) ==
-  CASE Check = "C02" -> e.types = Snapshot
+  CASE Check = "C02" -> ImageOK(e.types, seen)
+    [] Check = "REFINE" -> e.types = Snapshot
     [] Check = "C01" -> WellFormed(e.types) /\ ResolveProbesOK(e)
     [] Check = "C05" -> Len(e.types) = Len(table)
     [] Check = "C11" -> e.types = prev
@@ -92,7 +108,6 @@ TFinal == /\ Quiescent /\ ret = NoRet /\ Ev("Final") /\ AcceptFinal(Rec[l])
           /\ l' = l + 1 /\ UNCHANGED <<info, table, types, stack, evals, ret, prev, seen>>
 
 \* --- re-executions (C11 ii, iii) ---
-Min2(a, b) == IF a < b THEN a ELSE b
 RECURSIVE Grow(_, _, _)
 Grow(M, r1, r2) ==
   LET nxt == M \cup UNION { LET a == Refs(r1[p[1]+1]) b == Refs(r2[p[2]+1]) IN
